@@ -606,8 +606,11 @@ def r07_9(ctx):
             v = exact(b, i, rv["b"])
             if v is not None:
                 ands.append((b, i, s, v))
-    # M: the mask whose result feeds wrapping_sub(_, 1); T: what that is compared with
+    # M: the mask whose result decides whether the single product is exact.  Two spellings of the same test:
+    #   range trick  bits.wrapping_sub(1) < T          (exact iff 1 <= bits <= T)
+    #   explicit     bits == c1 || bits == c2          (ambiguous iff bits is one of the constants)
     M = T = R = K = Rc = None
+    AMB = None
     ws = [(b, t) for b, t in f.calls() if callee_is(t, "wrapping_sub") and op_int(t["args"][1]) == 1]
     for b, t in ws:
         a = op_local(t["args"][0])
@@ -619,14 +622,44 @@ def r07_9(ctx):
             rv = cs["rv"]
             if rv["k"] == "binop" and rv["op"] == "Lt" and op_local(rv["a"]) is not None and f.src(op_local(rv["a"])) == ("call", b, t):
                 T = exact(cb, ci, rv["b"])
-    # R: the mask whose result is compared with 0 (the rounding bit)
+    if M is None:
+        eqs = collections.defaultdict(set)
+        for cb, ci, cs in f.assigns():
+            rv = cs["rv"]
+            if rv["k"] == "binop" and rv["op"] in ("Eq", "Ne"):
+                for x, y in ((rv["a"], rv["b"]), (rv["b"], rv["a"])):
+                    lx = op_local(x)
+                    c = exact(cb, ci, y)
+                    if lx is None or c is None:
+                        continue
+                    chain = {lx}
+                    cur = lx
+                    for _ in range(6):      # the compared value is the masked word itself (or a copy of it)
+                        d = f.single_def(cur)
+                        if d and d[0] == "stmt" and d[3]["rv"]["k"] == "use" and op_local(d[3]["rv"]["op"]) is not None:
+                            cur = op_local(d[3]["rv"]["op"])
+                            chain.add(cur)
+                        else:
+                            break
+                    for ab, ai, as_, v in ands:
+                        if as_["lhs"][0] in chain:
+                            eqs[v].add(c)
+        cands = [v for v, cset in eqs.items() if len(cset) >= 2]
+        if len(cands) == 1:
+            M, AMB = cands[0], eqs[cands[0]]
+    # R: the mask that isolates the rounding bit: its result is compared with 0, or added to the word directly
     for ab, ai, as_, v in ands:
+        if v == M or v & (v - 1) != 0:
+            continue
         for cb, ci, cs in f.assigns():
             rv = cs["rv"]
             if rv["k"] == "binop" and rv["op"] in ("Gt", "Ne") and op_int(rv["b"]) == 0 and op_local(rv["a"]) is not None:
                 sl, leaves = backward_slice(f, [op_local(rv["a"])])
-                if as_["lhs"][0] in sl and v not in (M,):
+                if as_["lhs"][0] in sl:
                     R = v
+        for cb, ct in f.calls():
+            if callee_is(ct, "wrapping_add") and any(op_local(a) is not None and as_["lhs"][0] in (backward_slice(f, [op_local(a)], through_calls=False)[0] | {op_local(a)}) for a in ct["args"]):
+                R = v
     # K: the final right shift of the product's high word by a computed amount
     shr = [(b, i, s) for b, i, s in f.assigns() if s["rv"]["k"] == "binop" and s["rv"]["op"] == "Shr" and s["rv"]["b"]["k"] != "const"]
     for b, i, s in shr:
@@ -636,12 +669,14 @@ def r07_9(ctx):
     # Rc: the carry test `hi < 1 << (K-1)` after rounding: an Lt against an exact power of two other than 2^63
     for b, i, s in f.assigns():
         rv = s["rv"]
-        if rv["k"] == "binop" and rv["op"] == "Lt" and rv["b"]["k"] != "const":
+        if rv["k"] == "binop" and rv["op"] == "Lt" and op_local(rv["a"]) is not None and f.locals[op_local(rv["a"])]["ty"] == "u64":
             v = exact(b, i, rv["b"])
-            if v is not None and v & (v - 1) == 0 and v not in (1 << 63,) and v > 2 and v != T:
+            # the word compared is the product's high word after the rounding addition
+            after_round = any(lf[0] == "call" and callee_is(lf[2], "wrapping_add") for lf in backward_slice(f, [op_local(rv["a"])], through_calls=False)[1])
+            if v is not None and v & (v - 1) == 0 and v not in (1 << 63,) and v > 2 and v != T and after_round:
                 Rc = v
-    found = all(x is not None for x in (M, T, R, K, Rc))
-    ctx.ob("R07.9", "window:anchors", found, f.loc(), f"sticky mask {M}, accepted upper bound {T}, rounding bit {R}, carry test {Rc}, final shift {K}")
+    found = all(x is not None for x in (M, R, K, Rc)) and (T is not None or AMB is not None)
+    ctx.ob("R07.9", "window:anchors", found, f.loc(), f"sticky mask {M}, accepted upper bound {T} / ambiguous patterns {sorted(AMB) if AMB else None}, rounding bit {R}, carry test {Rc}, final shift {K}")
     if not found:
         return
     ctx.ob("R07.9", "window:final-shift", K == 64 - 53, f.loc(), f"the final shift drops {K} bits (64 - 53 significand bits)")
@@ -649,9 +684,15 @@ def r07_9(ctx):
     ctx.ob("R07.9", "window:sticky-mask", M == (1 << (K - 2)) - 1, f.loc(),
            f"sticky mask {M}: the {K - 2} bits that lie below the rounding bit whether or not the product still needs its one-bit normalisation" if M == (1 << (K - 2)) - 1 else
            f"sticky mask {M} is not (1 << (K-2)) - 1 = {(1 << (K - 2)) - 1}: it includes the rounding bit of an un-normalised product, so an inexact single product is accepted")
-    ctx.ob("R07.9", "window:excludes-all-ones", T == M - 1, f.loc(),
-           f"bits - 1 < {T}: accepts 1 ..= mask-1, i.e. neither all zeros nor all ones" if T == M - 1 else
-           f"bits - 1 < {T} with mask {M}: the all-ones pattern (a pending carry from the low product) is accepted as exact")
+    if AMB is not None:
+        okx = AMB == {0, M}
+        ctx.ob("R07.9", "window:excludes-all-ones", okx, f.loc(),
+               f"the extended product is consulted when the masked bits are {sorted(AMB)}: all zeros and all ones" if okx else
+               f"the extended product is consulted when the masked bits are {sorted(AMB)}, mask {M}: all zeros and all ones ({[0, M]}) are the patterns that leave the rounding undecided")
+    else:
+        ctx.ob("R07.9", "window:excludes-all-ones", T == M - 1, f.loc(),
+               f"bits - 1 < {T}: accepts 1 ..= mask-1, i.e. neither all zeros nor all ones" if T == M - 1 else
+               f"bits - 1 < {T} with mask {M}: the all-ones pattern (a pending carry from the low product) is accepted as exact")
 
 
 MODULAR_AUDIT = {
